@@ -133,7 +133,7 @@ def _f(name, nargs):
         return [(st, X.fcall(name, args[:nargs]))]
     return m
 
-for _n, _k in (('abs', 1), ('max', 2), ('min', 2), ('clamp', 3), ('copysign', 2), ('floor', 1), ('round', 1), ('sqrt', 1)):
+for _n, _k in (('abs', 1), ('max', 2), ('min', 2), ('clamp', 3), ('copysign', 2), ('floor', 1), ('round', 1), ('sqrt', 1), ('trunc', 1), ('ceil', 1)):
     for _t in ('f32', 'f64'):
         for _c in ('core', 'std'):
             _EXACT[f'{_c}::{_t}::<impl {_t}>::{_n}'] = _f(_n, _k)
@@ -705,3 +705,7 @@ def m_sign(it, st, callee, args, dest_tid, site):
     b = X.cast('bits', args[0], X.U32)
     neg = X.binop('ne', X.node('iand', (b, X.const(X.U32, 0x80000000)), X.U32) if not b.is_const else X.binop('and', b, X.const(X.U32, 0x80000000)), X.const(X.U32, 0))
     return [(st, neg if callee['def'].endswith('negative') else X.unop('not', neg))]
+
+@model('std::f32::<impl f32>::fract', 'core::f32::<impl f32>::fract', 'std::f64::<impl f64>::fract', doc='x - trunc(x) (std documentation)')
+def m_fract(it, st, callee, args, dest_tid, site):
+    return [(st, X.binop('sub', args[0], X.fcall('trunc', [args[0]])))]
